@@ -45,3 +45,37 @@ Proof. exact clone_storage_spec. Qed.
 
 Example C02_nonvacuous : abs_at ex4 0 = Some ((515, 1), [30; 31])%N /\ abs_at ex3 0 = Some ((3, 1), [10; 11])%N.
 Proof. split; vm_compute; reflexivity. Qed.
+
+(* ---------------------------------------------------------------- whole histories *)
+From Gecs Require Import Query World Borrow Run WorldInv LoopFacts HistRun ValueHist.
+
+(** One closure call (any query, any parameter list) writes nothing outside the row it visits. *)
+Theorem C02_query_write_touches_only_the_visited_row : forall acc s i ver delta o s1 ds,
+  call_closure s i ver delta acc = Some (o, s1, ds) ->
+  ents s1 = ents s /\ aid s1 = aid s /\ forall col j, j <> i -> cell s1 col j = cell s col j.
+Proof. exact call_closure_frame. Qed.
+
+(** Between two points of a history of the run language with no writing operation in between
+    (creations with growth, destructions with the relocations they cause, ecs_iter_destroy!, read-only
+    queries, clears, clones and drops of worlds, panics), every entity still stored in an archetype of a
+    persisting world has exactly the component values it had. *)
+Theorem C02_values_survive_everything_but_writes : forall cfg d qs ops1 ops2 st1 st2 i a w1 w2 s1 s2 e r,
+  hist_case cfg d qs (ops1 ++ ops2) = true -> forallb not_writing ops2 = true ->
+  run_to cfg d qs rs0 ops1 = Some st1 -> run_to cfg d qs st1 ops2 = Some st2 ->
+  worlds st1 !! i = Some (Some w1) -> worlds st2 !! i = Some (Some w2) -> w1 !! a = Some s1 -> w2 !! a = Some s2 ->
+  row_in s1 e r -> e ∈ ents s2 -> row_in s2 e r.
+Proof. exact run_rows_preserved. Qed.
+
+(** Non-vacuity: three entities; the first is destroyed (relocating the third), the storage grows,
+    an ecs_iter_destroy! pass removes another one; the survivor keeps its values at a new position. *)
+Definition c02_decl : wdecl := WD [DA 0%N 0 [DC 0%N 0]; DA 3%N 1 [DC 0%N 0; DC 1%N 1]; DA 4%N 2 [DC 0%N 1; DC 1%N 2; DC 2%N 3]; DA 200%N 3 [DC 0%N 0; DC 1%N 1; DC 2%N 2; DC 3%N 4; DC 4%N 5; DC 5%N 6; DC 6%N 7; DC 7%N 8]] [3].
+Definition c02_qs : list (list qparam) := [[QP [] false PEntAny true]].
+Definition c02_ops1 : list op := [ONew [2; 3; 2; 2]; OCreate 1 10%N; OCreate 1 20%N; OCreate 1 30%N].
+Definition c02_ops2 : list op := [ODestroy LWorld KEnt TAny (RIssued 0); OCreate 1 40%N; OCreate 1 50%N; OIterD 0 [DContinue; DContinueDestroy]; OClone].
+Definition c02_rows (ops : list op) : option (list (option (handle * list val))) :=
+  st ← run_to (Config false true true) c02_decl c02_qs rs0 ops; w ← mjoin (worlds st !! 0); s ← w !! 1; Some ((fun i => abs_at s i) <$> seq 0 (len s)).
+Example C02_history_instance :
+  hist_case (Config false true true) c02_decl c02_qs (c02_ops1 ++ c02_ops2) = true /\ forallb not_writing c02_ops2 = true /\
+  c02_rows c02_ops1 = Some [Some ((3, 1), [640; 641]); Some ((259, 1), [1280; 1281]); Some ((515, 1), [1920; 1921])]%N /\
+  c02_rows (c02_ops1 ++ c02_ops2) = Some [Some ((515, 1), [1920; 1921]); Some ((259, 1), [1280; 1281]); Some ((771, 1), [3200; 3201])]%N.
+Proof. vm_compute. repeat split; reflexivity. Qed.
